@@ -2,6 +2,7 @@
 //! hooks on) on generated cases and writes (a) Coq case files evaluated against the Gallina model
 //! and (b) a JSON-lines file for the exact-rational oracles.
 mod util;
+mod polys;
 mod c19;
 mod flat;
 mod c15;
@@ -36,6 +37,9 @@ fn main() {
                 "C03flat" => flat::run(seed, n, out, 3),
                 "C13flat" => flat::run(seed, n, out, 13),
                 "C19" => c19::run(seed, n, out),
+                "C11" => polys::run_c11(seed, n, out),
+                "C12" => polys::run_c12(seed, n, out),
+                "C20" => polys::run_c20(seed, n, out),
                 _ => { eprintln!("unknown property {}", prop); std::process::exit(2) }
             }
         }
@@ -51,6 +55,9 @@ fn main() {
                 _ => { eprintln!("unknown part"); std::process::exit(2) }
             },
             "C19" => c19::replay(&args[3..]),
+            "C11" => polys::replay_c11(&args[3..]),
+            "C12" => polys::replay_c12(&args[3..]),
+            "C20" => polys::replay_c20(&args[3..]),
             _ => { eprintln!("unknown property"); std::process::exit(2) }
         },
         _ => std::process::exit(2),
